@@ -105,6 +105,17 @@ theorem C17_copy_char_balanced (failAt : Nat) (s : St) (old : Owned) (rest : Lis
     (rc = OK ↔ failIds st.evs = failIds s.evs) :=
   copyChar_summary failAt old s rest hb hc
 
+/-- cif_value_deserialize of the blob of a list value (elements: unknown/na, character values, lists of such, any
+    nesting and width; numbers and tables are not covered) onto an existing value object, every fault position:
+    no double / invalid free; on failure every element object, text and element array obtained so far is released
+    exactly once and nothing stays live; on success exactly the blocks the destination gained are live; CIF_OK exactly
+    when no request failed, otherwise CIF_ERROR. -/
+theorem C17_deserialize_balanced (elems : List DShape) (failAt : Nat) :
+    let (rc, gained, st) := deserialize failAt elems
+    Balanced st.evs (match gained with | some g => g | none => []) ∧
+    (rc = OK ∨ rc = ERROR) ∧ (rc = OK ↔ gained.isSome) ∧ (rc = OK ↔ NoFail st.evs) :=
+  deser_summary failAt elems
+
 /-- cif_packet_create WITH THE PROPOSED REPAIR of cif_packet_create_norm's failure handler (notes/agents/gI-fixes.diff),
     for every list of (distinct, valid, ASCII) item names — `respelled` says for each name whether its spelling differs
     from the normalised one — and every fault position, uthash's table and bucket-array requests included (no bucket
@@ -135,7 +146,7 @@ theorem C17_cex_packet_create_undefined (respelled : List Bool) (failAt : Nat) :
 /-- the fault position is reached iff it is one of the allocation requests of the fault-free run
     (1 ≤ failAt ≤ their number); then exactly one `fail` event occurs — the request number `failAt` — and it is the
     last request of the call (the ladders only release afterwards); otherwise the run makes the same number of
-    requests as the fault-free run.  For all seven ladders (get_names and packet_create: pinned and repaired; set_element_at and copy_char: from any
+    requests as the fault-free run.  For all eight ladders (get_names and packet_create: pinned and repaired; set_element_at and copy_char: from any
     consistent start state, requests numbered on from `s.count`). -/
 theorem C17_fault_reached_iff (failAt : Nat) :
     (∀ n, let st := (dupUstrings failAt n).2.2
@@ -164,6 +175,10 @@ theorem C17_fault_reached_iff (failAt : Nat) :
           (¬ NoFail st.evs ↔ 1 ≤ failAt ∧ failAt ≤ (packetCreateGen fixed 0 respelled).2.2.count) ∧
           (¬ NoFail st.evs → failIds st.evs = [failAt] ∧ st.count = failAt) ∧
           (NoFail st.evs → st.count = (packetCreateGen fixed 0 respelled).2.2.count)) ∧
+    (∀ elems, let st := (deserialize failAt elems).2.2
+          (¬ NoFail st.evs ↔ 1 ≤ failAt ∧ failAt ≤ (deserialize 0 elems).2.2.count) ∧
+          (¬ NoFail st.evs → failIds st.evs = [failAt] ∧ st.count = failAt) ∧
+          (NoFail st.evs → st.count = (deserialize 0 elems).2.2.count)) ∧
     (∀ fixed n, let st := (getNamesGen fixed failAt n).2.2
           (¬ NoFail st.evs ↔ 1 ≤ failAt ∧ failAt ≤ (getNamesGen fixed 0 n).2.2.count) ∧
           (¬ NoFail st.evs → failIds st.evs = [failAt] ∧ st.count = failAt) ∧
@@ -174,6 +189,7 @@ theorem C17_fault_reached_iff (failAt : Nat) :
    fun sh s old rest hb hc => fault_of_outcomes_from (set_outcome 0 old sh s rest hb hc) (set_outcome failAt old sh s rest hb hc),
    fun s old rest hb hc => fault_of_outcomes_from (copyChar_outcome 0 old s rest hb hc) (copyChar_outcome failAt old s rest hb hc),
    fun fixed fl => fault_of_outcomes (packet_outcome fixed 0 fl) (packet_outcome fixed failAt fl),
+   fun elems => fault_of_outcomes (deser_outcome 0 elems) (deser_outcome failAt elems),
    fun fixed n => fault_of_outcomes (names_outcome fixed 0 n) (names_outcome fixed failAt n)⟩
 
 -- ---------------------------------------------------------------------------------------------------------------
@@ -276,6 +292,17 @@ example :
     final (copyChar 0 old s0).2.2.evs = some [5, 1] ∧
     (copyChar 5 old s0).1 = MEMORY_ERROR ∧ (copyChar 5 old s0).2.2.evs.drop 4 = [.fail 5] ∧
     final (copyChar 5 old s0).2.2.evs = some [4, 3, 2, 1] := by decide +kernel
+
+/-- deserialising the blob of `[ 'a' [ 'b' ? ] ]` (8 requests: array 1; element object 2 and its text 3; element
+    object 4, inner array 5, inner element object 6 with text 7, inner element object 8); the 7th request (text of
+    'b') fails: inner object 6, inner array 5, list object 4, then the first element (text 3, object 2)
+    and the outer array 1 are released -/
+example :
+    (deserialize 0 [.chr, .lst [.chr, .scalar]]).2.2.count = 8 ∧
+    (deserialize 7 [.chr, .lst [.chr, .scalar]]).1 = ERROR ∧
+    (deserialize 7 [.chr, .lst [.chr, .scalar]]).2.2.evs = [.alloc 1, .alloc 2, .alloc 3, .alloc 4, .alloc 5, .alloc 6,
+      .fail 7, .free 6, .free 5, .free 4, .free 3, .free 2, .free 1] ∧
+    final (deserialize 7 [.chr, .lst [.chr, .scalar]]).2.2.evs = some [] := by decide +kernel
 
 /-- the specification is not trivially satisfiable: a double free, a free of a block never obtained and a leak are
     all rejected -/
